@@ -28,6 +28,30 @@ def sh(cmd, **kw):
     return r.returncode, r.stdout
 
 
+def sh_group(cmd, timeout, **kw):
+    """like sh, but the command runs in its own session and the whole process group is killed when
+    the time limit expires or the command ends (a mutant may leave spinning harness processes)"""
+    import signal
+    p = subprocess.Popen(cmd, stdout=subprocess.PIPE, stderr=subprocess.STDOUT, text=True,
+                         start_new_session=True, **kw)
+    try:
+        out, _ = p.communicate(timeout=timeout)
+        rc = p.returncode
+    except subprocess.TimeoutExpired:
+        rc, out = None, ""
+    try:
+        os.killpg(p.pid, signal.SIGKILL)
+    except OSError:
+        pass
+    if rc is None:
+        try:
+            p.communicate(timeout=10)
+        except Exception:
+            pass
+        raise subprocess.TimeoutExpired(cmd, timeout)
+    return rc, out
+
+
 def mask(text):
     """comments, string and char literals replaced by blanks of the same length"""
     out, i, n = list(text), 0, len(text)
@@ -259,7 +283,7 @@ def main():
     ap.add_argument("--tier", default="quick")
     ap.add_argument("--only", default="")
     ap.add_argument("--list", action="store_true")
-    ap.add_argument("--timeout", type=int, default=900)
+    ap.add_argument("--timeout", type=int, default=1800)
     a = ap.parse_args()
     if a.only:
         targets = []
@@ -316,8 +340,8 @@ def main():
                 continue
             t0 = time.time()
             try:
-                rc, out = sh([os.path.join(VERIF, "check"), a.pid, "--tier", a.tier], env=env, cwd=VERIF,
-                             timeout=a.timeout)
+                rc, out = sh_group([os.path.join(VERIF, "check"), a.pid, "--tier", a.tier], a.timeout,
+                                   env=env, cwd=VERIF)
                 res = classify(out)
             except subprocess.TimeoutExpired:
                 res, out = "timeout", ""
